@@ -24,6 +24,9 @@ def interleaved(keys):
     return False
 
 
+_arg_identities = c12._arg_identities
+
+
 def check_window(agg, h, kind, nkeys, form, keys, vals, menu_name):
     menu = gs.MENUS[menu_name]
     case = gs.describe(kind, nkeys, form, keys, vals, menu_name, METHOD)
@@ -47,10 +50,14 @@ def check_window(agg, h, kind, nkeys, form, keys, vals, menu_name):
             gidx[r] = gi
     agg.evals += 1
     agg.transitions += 1
+    arg_ids = _arg_identities(over, kw)
     try:
         res = t.window(over=over, **kw)
     except Exception as e:
         agg.violation(V(site, "raises-" + type(e).__name__, case, None, repr(e)[:100], py))
+        return
+    if _arg_identities(over, kw) != arg_ids:
+        agg.violation(V(site, "call-changed-a-list-argument-of-the-caller", case, None, None, py))
         return
     agg.compared += 1
     cols = [list(c._underlying) for c in res._underlying]
